@@ -15,12 +15,14 @@ import (
 	"encoding/json"
 	"flag"
 	"fmt"
+	"math/rand"
 	"os"
 	"runtime"
 	"sort"
 	"strconv"
 	"strings"
 	"sync"
+	"sync/atomic"
 	"time"
 
 	"github.com/echovault/sugardb/sugardb"
@@ -37,10 +39,12 @@ func goid() int64 {
 // gateCtl parks registered goroutines at selected points.
 type gateCtl struct {
 	mu      sync.Mutex
-	clients map[int64]int        // goroutine id -> client number
+	clients map[int64]int // goroutine id -> client number
 	parkAt  func(name string) bool
 	arrived chan gateEvent
 	release map[int]chan struct{}
+	parkAny bool // park unregistered goroutines too (reported as client 99)
+	only    int  // when non-zero, only this registered client is ever parked
 }
 
 type gateEvent struct {
@@ -65,7 +69,19 @@ func (g *gateCtl) handle(name string, args ...any) {
 	rel := g.release[c]
 	g.mu.Unlock()
 	if !ok {
-		return // background goroutine: passes
+		if !g.parkAny {
+			return // background goroutine: passes
+		}
+		g.mu.Lock()
+		c = 99
+		if g.release[99] == nil {
+			g.release[99] = make(chan struct{})
+		}
+		rel = g.release[99]
+		g.mu.Unlock()
+	}
+	if g.only != 0 && c != g.only && c != 99 {
+		return
 	}
 	g.arrived <- gateEvent{client: c, point: name}
 	<-rel
@@ -395,4 +411,257 @@ func replayBehaviour(b map[string]any, parkAt func(string) bool) map[string]any 
 	}
 	res["verdict"] = "match"
 	return res
+}
+
+// ---- excl: mutual exclusion probes --------------------------------------------------------
+
+type holderSpec struct {
+	Point  string
+	Cmd    []Tok
+	Preset [][]Tok
+}
+
+func cmdExcl(args []string) {
+	fs := flag.NewFlagSet("excl", flag.ExitOnError)
+	out := fs.String("out", "", "trace file (ndjson)")
+	_ = fs.Parse(args)
+	quiet()
+	tr, err := NewTrace(*out)
+	if err != nil {
+		die(2, "%v", err)
+	}
+	pre := [][]Tok{{S("SET"), S("k1"), B("v")}, {S("SET"), S("k2"), B("5")}}
+	holders := []holderSpec{
+		{"ks.keysExist.locked", []Tok{S("GET"), S("k1")}, pre},
+		{"ks.getExpiry.locked", []Tok{S("TTL"), S("k1")}, pre},
+		{"ks.getValues.locked", []Tok{S("INCR"), S("k2")}, pre},
+		{"ks.setValues.locked", []Tok{S("SET"), S("k1"), B("w")}, pre},
+		{"ks.setValues.key", []Tok{S("MSET"), S("k1"), B("a"), S("k2"), B("b")}, pre},
+		{"ks.setExpiry.locked", []Tok{S("PEXPIRE"), S("k1"), I(100000)}, pre},
+		{"ks.deleteKey.locked", []Tok{S("DEL"), S("k1")}, pre},
+		{"ks.flush.locked", []Tok{S("FLUSHDB")}, pre},
+		{"ks.getState.copy", []Tok{S("SAVE")}, pre},
+	}
+	contenders := map[string][]Tok{
+		"reader": {S("TTL"), S("k2")},
+		"writer": {S("SET"), S("k3"), B("x")},
+	}
+	for _, h := range holders {
+		for _, cname := range []string{"reader", "writer"} {
+			ev := exclProbe(h, cname, contenders[cname])
+			tr.Emit(ev)
+		}
+	}
+	_ = tr.Close()
+}
+
+func exclProbe(h holderSpec, cname string, ccmd []Tok) map[string]any {
+	ev := map[string]any{"ev": "excl", "holder": h.Point, "contender": cname}
+	dir, _ := os.MkdirTemp("", "vexcl-")
+	defer os.RemoveAll(dir)
+	srv, err := NewSrv(SrvOpts{DataDir: dir})
+	if err != nil {
+		ev["err"] = err.Error()
+		return ev
+	}
+	for _, c := range h.Preset {
+		srv.Exec(c)
+	}
+	// only client 1 (the holder) is ever parked, and only at the holder's point
+	g := newGateCtl(func(name string) bool { return name == h.Point })
+	g.only = 1
+	sugardb.VerifSetHandler(g.handle)
+	defer sugardb.VerifSetHandler(nil)
+	pending := map[int][]gateEvent{}
+	if h.Point == "ks.getState.copy" {
+		// SAVE copies the state on a goroutine of its own: park whatever goroutine gets there
+		g.parkAny = true
+	}
+	g.start(srv, 1, h.Cmd)
+	hev, ok := g.waitFor(1, pending, 5*time.Second)
+	if h.Point == "ks.getState.copy" && ok && hev.done {
+		// the SAVE command itself returned; now wait for the copier to park
+		hev, ok = g.waitFor(99, pending, 5*time.Second)
+	}
+	if !ok || hev.done {
+		ev["err"] = "the holder command never reached " + h.Point
+		return ev
+	}
+	// the contender runs unparked (its points are not selected)
+	g.start(srv, 2, ccmd)
+	cev, finishedEarly := g.waitFor(2, pending, 200*time.Millisecond)
+	ev["blocked"] = !finishedEarly
+	// release the holder; everything must complete
+	holderClient := hev.client
+	g.mu.Lock()
+	rel := g.release[holderClient]
+	g.mu.Unlock()
+	rel <- struct{}{}
+	okAll := true
+	if finishedEarly {
+		okAll = okAll && cev.done
+	}
+	if holderClient == 1 {
+		for {
+			hd, ok := g.waitFor(1, pending, 5*time.Second)
+			if !ok {
+				okAll = false
+				break
+			}
+			if hd.done {
+				break
+			}
+			rel <- struct{}{} // the holder reached the same point again (next key): let it go on
+		}
+	}
+	if !finishedEarly {
+		cev, ok = g.waitFor(2, pending, 5*time.Second)
+		okAll = okAll && ok && cev.done
+	}
+	ev["finished"] = okAll
+	time.Sleep(20 * time.Millisecond)
+	return ev
+}
+
+// ---- stress: free-running clients on disjoint keys with background actors -------------------
+
+// Each client works on its own keys, so its command sequence has a sequential meaning that no other
+// client can disturb: its trace (state projected onto its own keys) must be a behaviour of the
+// sequential specification however the goroutines interleave, while SAVE, REWRITEAOF and the expiry
+// sampler run alongside.  A fatal runtime error kills this process (exit != 0), a hang is reported.
+func cmdStress(args []string) {
+	fs := flag.NewFlagSet("stress", flag.ExitOnError)
+	outPrefix := fs.String("out", "", "trace file prefix (one file per client)")
+	statsPath := fs.String("stats", "", "stats file")
+	seed := fs.Int64("seed", 1, "seed")
+	clients := fs.Int("clients", 6, "clients")
+	ops := fs.Int("ops", 300, "commands per client")
+	_ = fs.Parse(args)
+	quiet()
+	dir, _ := os.MkdirTemp("", "vstress-")
+	defer os.RemoveAll(dir)
+	srv, err := NewSrv(SrvOpts{DataDir: dir, AOFSync: "no"})
+	if err != nil {
+		die(2, "%v", err)
+	}
+	var wg sync.WaitGroup
+	stop := make(chan struct{})
+	kvPool = kvCanonValues
+	var actorRuns [3]atomic.Int64
+	// actors
+	for a := 0; a < 3; a++ {
+		go func(a int) {
+			for {
+				select {
+				case <-stop:
+					return
+				default:
+				}
+				switch a {
+				case 0:
+					_, _ = srv.DB.ExecuteCommand("SAVE")
+				case 1:
+					_, _ = srv.DB.ExecuteCommand("REWRITEAOF")
+				case 2:
+					_ = srv.DB.VerifRunSampler(0)
+				}
+				actorRuns[a].Add(1)
+				time.Sleep(time.Duration(1+a) * time.Millisecond)
+			}
+		}(a)
+	}
+	hung := make(chan int, *clients)
+	events := make([]int, *clients)
+	for ci := 0; ci < *clients; ci++ {
+		wg.Add(1)
+		go func(ci int) {
+			defer wg.Done()
+			r := rand.New(rand.NewSource(*seed*100 + int64(ci)))
+			tr, err := NewTrace(fmt.Sprintf("%s.c%d.ndjson", *outPrefix, ci))
+			if err != nil {
+				return
+			}
+			defer tr.Close()
+			prefix := fmt.Sprintf("c%dk", ci)
+			keys := []string{prefix + "1", prefix + "2", prefix + "3"}
+			mine := func(st sugardb.VerifState) []any {
+				var out []any
+				for _, e := range projState(srv.Ep, st) {
+					if strings.HasPrefix(e.(map[string]any)["key"].(string), prefix) {
+						out = append(out, e)
+					}
+				}
+				if out == nil {
+					out = []any{}
+				}
+				return out
+			}
+			tr.Emit(map[string]any{"ev": "reset", "run": ci, "now": srv.Now(), "st": []any{}, "mem": 0, "preset": []any{}})
+			for i := 0; i < *ops; i++ {
+				var cmd []Tok
+				switch r.Intn(5) {
+				case 0:
+					cmd = genHash(r, keys)
+				case 1:
+					cmd = genList(r, keys)
+				case 2:
+					cmd = genSet(r, keys)
+				default:
+					cmd = genKV(r, keys, srv.Now())
+				}
+				if n := upper(cmd[0].S); n == "FLUSHDB" || n == "FLUSHALL" {
+					continue // would destroy the other clients' keys
+				}
+				done := make(chan Reply, 1)
+				go func() {
+					wire := make([]string, len(cmd))
+					for j, t := range cmd {
+						wire[j] = srv.Ep.Wire(t)
+					}
+					defer func() {
+						if p := recover(); p != nil {
+							done <- Reply{T: "panic", Why: fmt.Sprint(p)}
+						}
+					}()
+					raw, err := srv.DB.ExecuteCommand(wire...)
+					if err != nil {
+						done <- Reply{T: "err"}
+						return
+					}
+					done <- ParseOne(raw)
+				}()
+				var rep Reply
+				select {
+				case rep = <-done:
+				case <-time.After(20 * time.Second):
+					hung <- ci
+					tr.Emit(map[string]any{"ev": "cmd", "run": ci, "now": srv.Now(), "db": "0", "cmd": toksJSON(cmd),
+						"r": Reply{T: "hang"}.JSON(), "st": []any{}, "mem": 0})
+					return
+				}
+				rep = srv.relTimeReply(cmd, rep)
+				st := srv.DB.VerifDumpKeys(func(k string) bool { return strings.HasPrefix(k, prefix) })
+				tr.Emit(map[string]any{"ev": "cmd", "run": ci, "now": srv.Now(), "db": "0", "cmd": toksJSON(cmd),
+					"r": rep.JSON(), "st": mine(st), "mem": 0})
+				events[ci]++
+				if rep.T == "panic" {
+					return
+				}
+			}
+		}(ci)
+	}
+	wg.Wait()
+	close(stop)
+	total := 0
+	for _, n := range events {
+		total += n
+	}
+	nh := len(hung)
+	if *statsPath != "" {
+		writeJSON(*statsPath, map[string]any{"clients": *clients, "events": total, "hung_clients": nh,
+			"save_runs": actorRuns[0].Load(), "rewrite_runs": actorRuns[1].Load(), "sampler_runs": actorRuns[2].Load()})
+	}
+	if nh > 0 {
+		os.Exit(3)
+	}
 }
